@@ -379,9 +379,11 @@ def bounded_case(args):
 def run(tier):
     rep = common.Report('C14', tier, 'other', './check C14 --tier %s' % tier)
     rep.trust('pyvc (havoc/invariant loops, unknown-value abstraction), z3; CPython for the bounded generator runs')
-    rep.assume('decode(snapshot, a, a+1) yields first (a, size, ...) with 1 <= size <= 4 when no RST handler is configured (sizes are enumerated under C07); decode(snapshot, start, end) yields addresses in [start, end) in increasing order')
+    rep.assume('decode() contract (first address == start, 1 <= size <= 4, consecutive addresses, all in [start, end)) is proved here for rst_handler=None (props/decodevc.py); RST-argument handling is not under VC')
     rep.assume('read_map, Disassembly and _get_text_blocks return addresses within the requested range: assumed here, observed in the bounded runs')
     rep.assume('steps (3)-(7) of _generate_ctls_with_code_map and the post-processing phases of _generate_ctls_without_code_map mutate ctls with keys taken from ctls itself or from the above functions: not under VC, bounded only; termination of the fix-point loops is only observed')
+    from props import decodevc
+    decodevc.check_decode(rep, 'C14')
     check_find_terminal(rep)
     check_without_code_map(rep)
     quick = tier == 'quick'
